@@ -199,3 +199,148 @@ def run_divide_pair(pair, tid: str, prop: str, variant: int = 0) -> dict:
     rec.do("polydiv", [n, d], keep=False, fn=fn, spelling=sp, capped=False, digs=[], iterations=0)
     rec.meta["source"] = "Divide"
     return rec.to_json()
+
+
+# ------------------------------------------------------- generic vector models
+def vectors(dump_path: str, var="vec"):
+    out = []
+    for st in tlaval.parse_dump(dump_path, variables={var}):
+        v = st.get(var)
+        if isinstance(v, dict) and v.get("kind") != "none":
+            out.append(v)
+    return out, {"vectors": len(out)}
+
+
+def _q(q):
+    return "inf" if q == "inf" else float(q)
+
+
+def run_sort_vector(vec, tid: str, prop: str, variant: int = 0) -> dict:
+    """MC_Sort vectors on glexsort / glexindex / bindex / monomial."""
+    reset_options()
+    rec = Recorder(tid, prop)
+    if vec["kind"] == "glexsort":
+        keys = [list(r) for r in vec["keys"]]
+        rec.do("index", [], keep=False, fn="glexsort", p={"keys": keys, "graded": vec["graded"], "reverse": vec["reverse"], "oned": False},
+               keys=keys, graded=vec["graded"], reverse=vec["reverse"])
+    else:
+        start, stop = list(vec["start"]), list(vec["stop"])
+        d = len(stop)
+        ct = [_q(vec["qlow"]), _q(vec["qup"])] if vec["qlow"] != vec["qup"] else _q(vec["qup"])
+        base = {"start": start if d > 1 else start[0], "stop": stop if d > 1 else stop[0], "dimensions": d, "cross_truncation": ct}
+        fn = ("glexindex", "monomial", "bindex")[variant % 3]
+        if fn == "bindex":
+            ordering = ("G" if vec["graded"] else "") + ("" if vec["reverse"] else "R")
+            q = dict(base, ordering=ordering)
+        else:
+            q = dict(base, graded=vec["graded"], reverse=vec["reverse"])
+        rec.do("index", [], keep=False, fn=fn, p=q, start=start, stop=stop, qlow=vec["qlow"], qup=vec["qup"],
+               graded=vec["graded"], reverse=vec["reverse"], inverse=False)
+    rec.meta["source"] = "MC_Sort"
+    return rec.to_json()
+
+
+def _rep_poly(rep):
+    """MC_Order representation (function row -> coefficient, or <<>>) to a 0-d polynomial in q0, q1."""
+    if not rep:
+        return build_poly({"shape": [], "names": [0, 1], "rows": [[0, 0]], "coefs": [[0]], "dtype": "int64"})
+    rows = [list(k) for k in rep]
+    return build_poly({"shape": [], "names": [0, 1], "rows": rows, "coefs": [[v] for v in rep.values()], "dtype": "int64"})
+
+
+def run_order_vector(vec, tid: str, prop: str, variant: int = 0) -> dict:
+    reset_options()
+    rec = Recorder(tid, prop)
+    rec.do("set_options", [], keep=False, kw={"sort_graded": vec["graded"], "sort_reverse": vec["reverse"]}, bad=[], prop="C14")
+    a = rec.new(_rep_poly(vec["a"]))
+    b = rec.new(_rep_poly(vec["b"]))
+    sps = ("operator", "numpy", "numpoly")
+    for n, op in enumerate(("lt", "le", "gt", "ge", "eq", "ne")):
+        rec.do("compare", [a, b], keep=False, op=op, spelling=sps[(variant + n) % 3])
+    rec.do("extreme", [a, b], keep=False, op=("maximum", "minimum")[variant % 2], spelling=("numpy", "numpoly")[(variant // 2) % 2])
+    # a plain number as operand (Python / numpy scalar, either side)
+    import numpy
+    c = rec.new((0, numpy.int64(1), -1.0, numpy.float64(0.0))[variant % 4])
+    pair = [a, c] if (variant // 4) % 2 == 0 else [c, a]
+    for n, op in enumerate(("lt", "ge", "eq")):
+        rec.do("compare", pair, keep=False, op=op, spelling=sps[(variant + n) % 3] if pair[0] == a else "operator")
+    rec.do("lead", [a], keep=False, fn=("lead_exponent", "lead_coefficient")[variant % 2], flags_given=True,
+           graded=vec["graded"], reverse=vec["reverse"], prop="C19")
+    reset_options()
+    rec.meta["source"] = "MC_Order"
+    return rec.to_json()
+
+
+def run_reduce_vector(vec, tid: str, prop: str, variant: int = 0) -> dict:
+    import random
+    from .actions import reduce_fields
+    from .drivers.shape import distinct_poly_spec
+    reset_options()
+    rec = Recorder(tid, prop)
+    rng = random.Random(variant)
+    a = rec.new(build_poly(distinct_poly_spec(rng, tuple(vec["shape"]), names=(0, 1), kind="int")))
+    fn = vec["fn"]
+    axes = list(vec["axes"])
+    p = {"axis": "none" if vec["none"] else (axes[0] if len(axes) == 1 and variant % 2 == 0 else axes)}
+    if vec["keepdims"]:
+        p["keepdims"] = True
+    if fn == "cumsum" and not vec["none"]:
+        p["axis"] = axes[0]
+    sps = {"sum": ["numpoly", "numpy", "method", "reduce"], "prod": ["numpoly", "numpy", "method", "reduce"],
+           "mean": ["numpoly", "numpy", "method"], "cumsum": ["numpoly", "numpy", "method"]}[fn]
+    rec.do("reduce", [a], keep=False, fn=fn, p=p, spelling=sps[variant % len(sps)], **reduce_fields(fn, p))
+    rec.meta["source"] = "MC_Reduce"
+    return rec.to_json()
+
+
+def order_vectors(dump_path: str):
+    out, stats = vectors(dump_path)
+    out = [v for v in out if v["kind"] == "order"]
+    return out, {"vectors": len(out)}
+
+
+def reduce_vectors(dump_path: str):
+    out, stats = vectors(dump_path)
+    out = [v for v in out if v["kind"] == "reduce"]
+    return out, {"vectors": len(out)}
+
+
+def shape_vectors(dump_path: str):
+    out, _ = vectors(dump_path)
+    out = [v for v in out if v["kind"] in ("index", "transpose")]
+    return out, {"vectors": len(out)}
+
+
+def run_shape_vector(vec, tid: str, prop: str, variant: int = 0) -> dict:
+    import random
+    from .actions import gather_map
+    from .drivers.shape import distinct_poly_spec, model_of
+    reset_options()
+    rec = Recorder(tid, prop)
+    rng = random.Random(variant)
+    shape = tuple(vec["shape"])
+    a = rec.new(build_poly(distinct_poly_spec(rng, shape, names=(0, 1) if variant % 2 else (0,), kind="int")))
+    if vec["kind"] == "transpose":
+        fn, p = ("transpose", "transpose_method")[variant % 2], {"axes": [x - 1 for x in vec["perm"]]}
+        base = "transpose"
+    else:
+        items = []
+        for it in vec["items"]:
+            it = dict(it)
+            if it["t"] == "slice":
+                it = {"t": "slice", "a": list(it["a"]), "b": list(it["b"]), "st": list(it["st"])}
+            if it["t"] == "list":
+                it = {"t": "list", "v": list(it["v"])}
+            items.append(it)
+        fn, p = "getitem", {"index": items, "tuple": len(items) != 1 or bool(variant % 2)}
+        base = "getitem"
+    params = {"fn": fn, "p": p, "spelling": ("numpoly", "numpy")[variant % 2]}
+    try:
+        g = gather_map(params, [shape])
+    except Exception:  # numpy rejects this expression (e.g. lists that do not broadcast): outside the quantifier
+        rec.meta["skipped"] = True
+        return rec.to_json()
+    model = model_of(base, p, [shape])
+    rec.do("move", [a], gather=g, model=[model] if model else [], **params)
+    rec.meta["source"] = "MC_Shape"
+    return rec.to_json()
